@@ -586,8 +586,6 @@ seq_t dtw_distance_euclidean(seq_t *s1, idx_t l1,
         }
     } else if (max_dist == 0) {
         max_dist = INFINITY;
-    } else {
-        max_dist = pow(max_dist, 2);
     }
     if (l1 > l2) {
         ldiff = l1 - l2;
@@ -604,10 +602,7 @@ seq_t dtw_distance_euclidean(seq_t *s1, idx_t l1,
     }
     if (max_step == 0) {
         max_step = INFINITY;
-    } else {
-        max_step = pow(max_step, 2);
     }
-    penalty = pow(penalty, 2);
     // rows is for series 1, columns is for series 2
     idx_t length = MIN(l2+1, ldiff + 2*window + 1);
     assert(length > 0);
@@ -818,8 +813,6 @@ seq_t dtw_distance_ndim_euclidean(seq_t *s1, idx_t l1,
         }
     } else if (max_dist == 0) {
         max_dist = INFINITY;
-    } else {
-        max_dist = pow(max_dist, 2);
     }
     if (l1 > l2) {
         ldiff = l1 - l2;
@@ -836,10 +829,7 @@ seq_t dtw_distance_ndim_euclidean(seq_t *s1, idx_t l1,
     }
     if (max_step == 0) {
         max_step = INFINITY;
-    } else {
-        max_step = pow(max_step, 2);
     }
-    penalty = pow(penalty, 2);
     // rows is for series 1, columns is for series 2
     idx_t length = MIN(l2+1, ldiff + 2*window + 1);
     assert(length > 0);
